@@ -291,3 +291,155 @@ func (fc *floatClass) intText(v oval) (oval, bool) {
 	}
 	return oTokF{x.r}, true // the digits of a whole number parse back to it exactly
 }
+
+// ---------------------------------------------------------------- signs of differences and products
+//
+// Opt-in (oInterp.signArith): the difference of two rank-valued ordinates is known by its sign —
+// the order of the ranks — and by whether an infinity is involved; a product of such differences
+// follows IEEE-754 (0·∞ is not a number).  Finite ordinates are taken to be moderate: their
+// differences and products neither overflow nor underflow.  Enough to follow a test like
+// `Area() == 0`, which the order domain alone cannot.
+
+type oSignV struct{ k int }
+
+const (
+	sgNaN = iota
+	sgNegInf
+	sgNeg
+	sgZero
+	sgPos
+	sgPosInf
+)
+
+func (s oSignV) String() string {
+	return [...]string{"NaN", "-Inf", "negative", "zero", "positive", "+Inf"}[s.k]
+}
+
+// signSub: a − b for two ranks.
+func signSub(a, b oFloat) oSignV {
+	aInf, bInf := 0, 0
+	if a.r >= oInf {
+		aInf = 1
+	} else if a.r <= -oInf {
+		aInf = -1
+	}
+	if b.r >= oInf {
+		bInf = 1
+	} else if b.r <= -oInf {
+		bInf = -1
+	}
+	switch {
+	case aInf != 0 && aInf == bInf:
+		return oSignV{sgNaN}
+	case aInf == 1 || bInf == -1:
+		return oSignV{sgPosInf}
+	case aInf == -1 || bInf == 1:
+		return oSignV{sgNegInf}
+	case a.r > b.r:
+		return oSignV{sgPos}
+	case a.r < b.r:
+		return oSignV{sgNeg}
+	}
+	return oSignV{sgZero}
+}
+
+func signMul(a, b oSignV) oSignV {
+	if a.k == sgNaN || b.k == sgNaN {
+		return oSignV{sgNaN}
+	}
+	inf := func(k int) bool { return k == sgNegInf || k == sgPosInf }
+	neg := func(k int) bool { return k == sgNegInf || k == sgNeg }
+	if (a.k == sgZero && inf(b.k)) || (b.k == sgZero && inf(a.k)) {
+		return oSignV{sgNaN}
+	}
+	if a.k == sgZero || b.k == sgZero {
+		return oSignV{sgZero}
+	}
+	negative := neg(a.k) != neg(b.k)
+	switch {
+	case inf(a.k) || inf(b.k):
+		if negative {
+			return oSignV{sgNegInf}
+		}
+		return oSignV{sgPosInf}
+	case negative:
+		return oSignV{sgNeg}
+	}
+	return oSignV{sgPos}
+}
+
+// signBinop: x op y under sign arithmetic; ok=false leaves the expression to the interpreter.
+func signBinop(op token.Token, l, r oval) (oval, bool) {
+	switch op {
+	case token.SUB:
+		a, ok1 := l.(oFloat)
+		b, ok2 := r.(oFloat)
+		if ok1 && ok2 {
+			return signSub(a, b), true
+		}
+	case token.MUL:
+		a, ok1 := l.(oSignV)
+		b, ok2 := r.(oSignV)
+		if ok1 && ok2 {
+			return signMul(a, b), true
+		}
+	}
+	return nil, false
+}
+
+// signCompare: a sign against the constant zero.
+func signCompare(op token.Token, l, r oval) (oval, bool) {
+	isZero := func(v oval) bool {
+		switch x := v.(type) {
+		case oTop:
+			return x.why == "float constant 0"
+		case oConstF:
+			return x.v == 0
+		case oInt:
+			return x == 0
+		}
+		return false
+	}
+	s, ok := l.(oSignV)
+	flip := false
+	if !ok {
+		s, ok = r.(oSignV)
+		flip = true
+		if !ok || !isZero(l) {
+			return nil, false
+		}
+	} else if !isZero(r) {
+		if _, both := r.(oSignV); both {
+			return oTop{"comparison of two differences or products known by sign only"}, true
+		}
+		return nil, false
+	}
+	if s.k == sgNaN {
+		return oBool(op == token.NEQ), true
+	}
+	c := 0 // sign of s relative to zero
+	switch s.k {
+	case sgNegInf, sgNeg:
+		c = -1
+	case sgPos, sgPosInf:
+		c = 1
+	}
+	if flip {
+		c = -c
+	}
+	switch op {
+	case token.LSS:
+		return oBool(c < 0), true
+	case token.LEQ:
+		return oBool(c <= 0), true
+	case token.GTR:
+		return oBool(c > 0), true
+	case token.GEQ:
+		return oBool(c >= 0), true
+	case token.EQL:
+		return oBool(c == 0), true
+	case token.NEQ:
+		return oBool(c != 0), true
+	}
+	return nil, false
+}
